@@ -181,6 +181,47 @@ fn body(ctx: &mut Ctx) {
             ctx.sample(|| format!("BigInt modpow m=+-{} x {} bases x {} exponents x 4 sign pairs", m.to_hex(), nb, ne));
         }
     }
+    // ---- P4 dense LCG moduli (odd and even), bases and exponents
+    if ctx.space("P4") {
+        let lmax = tier.pick(5usize, 8usize);
+        let mut o = 0u64;
+        for lm in 1..=lmax {
+            for salt in 0..6u64 {
+                for odd in [true, false] {
+                    let take = ctx.mine(o);
+                    o += 1;
+                    if !take {
+                        continue;
+                    }
+                    let mut md = alpha::lcg_digits(lm, salt);
+                    if odd {
+                        md[0] |= 1;
+                    } else {
+                        md[0] &= !1;
+                        if lm == 1 && md[0] == 0 {
+                            md[0] = 6;
+                        }
+                    }
+                    let m = Nat::from_digits(&md);
+                    let bm = bu_nat(&m);
+                    for lb in [lm.saturating_sub(1).max(1), lm, lm + 1, lm + 3] {
+                        for le in 1..=3usize {
+                            for es in 0..2u64 {
+                                let b = Nat::from_digits(&alpha::lcg_digits(lb, 40 + salt));
+                                let mut ed = alpha::lcg_digits(le, 80 + es);
+                                if es == 1 {
+                                    ed[0] = 0; // zero low exponent digit
+                                }
+                                let e = Nat::from_digits(&ed);
+                                modpow_case(ctx, &b, &e, &m, &bu_nat(&b), &bu_nat(&e), &bm);
+                            }
+                        }
+                    }
+                    ctx.sample(|| format!("dense LCG modulus of {} digits ({}), bases of 4 lengths, exponents of 1..3 digits", lm, if odd { "odd" } else { "even" }));
+                }
+            }
+        }
+    }
     // ---- P3 panic clauses
     if ctx.space("P3") && ctx.mine(0) {
         for md in mods.iter().step_by(7) {
